@@ -328,6 +328,27 @@ CLAIMS["C01"] = dict(
          "C18, ClimateNetwork setter histories also by C09.",
     design="3/C01")
 
+CLAIMS["C20"] = dict(
+    technique="shape-directed fuzzing of public entry points against an "
+              "ASan+UBSan build of the working tree (sanitizer = crash "
+              "oracle), exhaustive {0,1,2,3}^k shape grid + Hypothesis-drawn "
+              "sizes / dtypes / layouts / value classes",
+    text="29 public entry points (1..15 variants each) reaching all 58 "
+         "compiled functions of the four _ext modules are driven in "
+         "persistent child interpreters running an address/undefined-"
+         "behaviour-sanitized rebuild of /repo's working tree: every size "
+         "tuple in {0,1,2,3}^k per entry point (exhaustive), plus generated "
+         "sizes up to 16 with N != T both ways, dtypes f8/f4/i8/b1, "
+         "non-contiguous / transposed / reversed views, random / constant / "
+         "tied / NaN / huge values. A Python exception is a pass; a "
+         "sanitizer report with a pyunicorn frame, a signal, or a Cython "
+         "bounds-guard trip on a well-formed case is a violation; the "
+         "evidence lists kernels_reached / kernels_total.",
+    note="Trusted: gcc ASan/UBSan (cannot see overruns landing in another "
+         "live block; float-cast overflow is not instrumented). Generator "
+         "keeps the termination preconditions of kNN and rewiring kernels.",
+    design="3/C20")
+
 NOT_CLAIMED = {}
 
 
@@ -361,7 +382,7 @@ def main():
         })
     man = {
         "version": 1,
-        "setup_cmd": "/venv/bin/python -m vp.setup plain",
+        "setup_cmd": "/venv/bin/python -m vp.setup plain asan",
         "hooks": {
             "guard": GUARD,
             "enable": "no hook is needed: checks import a private build of "
